@@ -151,7 +151,7 @@ MASSDERIVED = re.compile(r"^(body_mass|body_subtreemass|body_inertia|body_ipos|b
                          r"body_bvhadr|body_bvhnum)$")
 MESHDERIVED = re.compile(r"^(mesh_\w+|geom_aabb|geom_rbound|geom_pos|geom_quat|geom_size|geom_surfacevel|nmesh\w+)$")
 # with free-joint alignment the body frame itself is derived from the inertia
-ALIGNDERIVED = re.compile(r"^(qpos0|qpos_spring|body_pos|body_quat|site_pos|site_quat|geom_pos|geom_quat|key_qpos|cam_pos|cam_quat|light_pos|light_dir|jnt_pos|jnt_axis)$")
+ALIGNDERIVED = re.compile(r"^(qpos0|qpos_spring|body_pos|body_quat|site_pos|site_quat|geom_pos|geom_quat|key_qpos|cam_pos|cam_quat|light_pos|light_dir|jnt_pos|jnt_axis|eq_data)$")
 KEYFIELDS = re.compile(r"^(key_\w+|name_keyadr|names|names_map|nnames|nnames_map)$")
 COMPILER_LOSSY = ("settotalmass", "inertiafromgeom", "inertiagrouprange", "balanceinertia", "fitaabb")
 
@@ -527,10 +527,23 @@ def run(ctx):
         jobs.append((cid, "X", 17, f, "X %s 17 0 %d\n%s\n" % (cid, len(x), x), {"gen": "fixed", "xml": x, "prec": 17, "feature": f}))
 
     inp = "".join(j[4] for j in jobs)
-    rc, out, err = ctx.run(exe, inp, timeout=900)
-    cases = {c["id"]: c for c in parse_out(out)}
-    if rc != 0 or len(cases) < len(jobs):
-        ctx.broken.append(("correspondence", "driver c32_roundtrip failed (rc=%s, %d of %d cases answered)" % (rc, len(cases), len(jobs)), err[-500:]))
+    # chunks: a case that hangs or crashes the driver loses only its chunk and is identified
+    cases = {}
+    CH = 60
+    for k in range(0, len(jobs), CH):
+        chunk = jobs[k:k + CH]
+        rc, out, err = ctx.run(exe, "".join(j[4] for j in chunk), timeout=240)
+        got = parse_out(out)
+        cases.update({c["id"]: c for c in got})
+        if rc != 0 or len(got) < len(chunk):
+            culprit = chunk[len(got)] if len(got) < len(chunk) else None
+            if culprit is not None:
+                c_info = culprit[5]
+                ctx.violation("impl_violation", dict(c_info, case_id=culprit[0]), expected="the round trip terminates normally",
+                              observed="driver rc=%s (%s) while processing this case" % (rc, "timeout after 240 s" if rc == -999 else err[-200:]),
+                              theorem="property statement (oracle on implementation output)", signature={"class": "core", "stage": "crash-or-hang"})
+            else:
+                ctx.broken.append(("correspondence", "driver c32_roundtrip failed (rc=%s)" % rc, err[-500:]))
     stats = {"ok": 0, "skip": 0, "violating": 0, "dontcare_components": 0, "text_not_fixed_point": 0}
     by_class = {}
     nontrivial = set()
